@@ -85,6 +85,88 @@ def _inline_into(j, g: Func, bi: int, as_closure: bool):
             nb["term"] = {"k": "goto", "target": tgt, "line": nb["term"].get("line")} if tgt is not None else {"k": "unreachable", "line": line}
     j["blocks"] += new_blocks
     j["blocks"][bi]["term"] = {"k": "goto", "target": bo, "line": line, "inlined_call": g.key}
+    if tgt is not None and not as_closure:
+        _thread_try(j, t, tgt, lo, bo, len(new_blocks))
+
+
+def _thread_try(j, call_t, T, lo, bo, n):
+    """`helper()?` after inlining: the helper's return paths merge in front of `Try::branch` and the switch on its result, so a
+    test made inside the helper no longer dominates the code after the `?`.  When every return path of the inlined helper builds
+    a known variant (Some/Ok → Continue, None/Err or `from_residual` → Break) each path is sent straight to the matching arm."""
+    blocks = j["blocks"]
+    D = call_t["dest"]
+    if D["p"]:
+        return
+    tb = blocks[T]
+    tt = tb["term"]
+    if tb["stmts"] or tt["k"] != "call" or not (tt.get("callee", {}).get("rdef", "") or "").endswith("as std::ops::Try>::branch"):
+        return
+    a0 = tt["args"][0].get("move") or tt["args"][0].get("copy")
+    if a0 is None or a0["l"] != D["l"] or a0["p"] or tt["dest"]["p"] or tt.get("target") is None:
+        return
+    CF = tt["dest"]["l"]
+    t2 = blocks[tt["target"]]
+    if len(t2["stmts"]) != 1 or t2["stmts"][0]["rv"].get("k") != "discr" or t2["stmts"][0]["rv"]["place"] != {"l": CF, "p": []} or t2["term"]["k"] != "switch":
+        return
+    arms = dict((v, b) for v, b in t2["term"]["targets"])
+    if "0" not in arms or "1" not in arms:
+        return
+    cont, brk = arms["0"], arms["1"]
+    ret0 = lo                                   # the helper's return place
+    rng = range(bo, bo + n)
+    rets = [i for i in rng if blocks[i]["term"]["k"] == "goto" and blocks[i]["term"].get("target") == T and blocks[i]["stmts"]
+            and blocks[i]["stmts"][-1].get("inlined") and blocks[i]["stmts"][-1]["place"] == D]
+    plan = []
+    for r in rets:
+        if len(blocks[r]["stmts"]) != 1:
+            return
+        preds = []
+        for i in rng:
+            tm = blocks[i]["term"]
+            if i != r and ((tm["k"] in ("goto", "drop", "assert") and tm.get("target") == r) or (tm["k"] == "call" and tm.get("target") == r)):
+                preds.append(i)
+            elif i != r and tm["k"] == "switch" and (r in [x[1] for x in tm["targets"]] or tm["otherwise"] == r):
+                return
+        if not preds:
+            return
+        def classify(p_, via, depth=0):
+            """what the helper's return place holds when control leaves block p_ towards `via`"""
+            tm = blocks[p_]["term"]
+            if tm["k"] == "call" and tm.get("target") == via and tm["dest"] == {"l": ret0, "p": []}:
+                return ("Break", None) if "FromResidual" in (tm.get("callee", {}).get("rdef", "") or "") else None
+            for st in reversed(blocks[p_]["stmts"]):
+                if st["k"] == "assign" and st["place"]["l"] == ret0:
+                    rv = st["rv"]
+                    if not st["place"]["p"] and rv.get("k") == "agg" and rv.get("agg") == "adt" and rv.get("adt", "").endswith(("option::Option", "result::Result")):
+                        v = rv["variant"]
+                        return ("Continue", v) if v in ("Some", "Ok") else ("Break", v)
+                    return None
+            if tm["k"] == "call" and tm["dest"]["l"] == ret0:
+                return None
+            # nothing here writes the return place: look at the unique predecessor
+            if depth > 3:
+                return None
+            pp = [i for i in rng if i != p_ and (blocks[i]["term"].get("target") == p_ or p_ in [x[1] for x in blocks[i]["term"].get("targets", [])]
+                                                 or blocks[i]["term"].get("otherwise") == p_)]
+            if len(pp) != 1 or blocks[pp[0]]["term"]["k"] == "switch":
+                return None
+            return classify(pp[0], p_, depth + 1)
+        for p_ in preds:
+            kind = classify(p_, r)
+            if kind is None:
+                return
+            plan.append((p_, r, kind))
+    if not plan:
+        return
+    for p_, r, (kind, v) in plan:
+        nb = len(blocks)
+        ops = [{"move": {"l": D["l"], "p": [f"as {v}", ".0"]}}] if kind == "Continue" else [{"const": {"ty": "residual", "zst": True}}]
+        blocks.append({"stmts": [copy.deepcopy(blocks[r]["stmts"][0]),
+                                 {"k": "assign", "place": {"l": CF, "p": []},
+                                  "rv": {"k": "agg", "agg": "adt", "adt": "std::ops::ControlFlow", "variant": kind, "fields": ["0"], "targs": [], "ops": ops},
+                                  "line": blocks[r]["term"].get("line"), "inlined": "try-threading"}],
+                       "term": {"k": "goto", "target": cont if kind == "Continue" else brk, "line": blocks[r]["term"].get("line")}})
+        blocks[p_]["term"]["target"] = nb
 
 
 def _reference(with_sig=False):
